@@ -3,6 +3,7 @@ import itertools
 import os
 import random
 import socket
+import threading
 import time
 
 from . import common as C
@@ -230,6 +231,116 @@ def _intrude_with(v, srv, clients, kind, target, cfg, replay, s):
         s.close()
 
 
+def mixed_timeouts(v, srv, sb, cfg, out):
+    """Overlapping transfers of different endpoints that negotiated different timeouts. A transfer with timeout 10 s whose
+    client pauses 7.5 s (inside its own timeout) must survive a neighbour that negotiates timeout 1 s; a transfer with
+    timeout 1 s must get its retransmission after about 1 s although a neighbour negotiates 30 s."""
+    try:
+        a_content = N.keyed_content("mtA", 512 * 2 + 100)
+        write(os.path.join(sb["srv"], "mtA.bin"), a_content)
+        write(os.path.join(sb["srv"], "mtB.bin"), N.keyed_content("mtB", 700))
+        up_content = N.keyed_content("mtU", 512 * 2 + 50)
+        fam = srv.family
+        # first: C negotiates timeout 1, D negotiates timeout 30 right behind it; C withholds its ACK
+        late = []
+        for attempt in range(3):
+            sc, sd = N._sock(fam, timeout=6.0), N._sock(fam, timeout=1.0)
+            trc = N.Transfer()
+            sc.sendto(N.enc_req(N.RRQ, "mtA.bin", options=[("timeout", 1)]), srv.addr)
+            kc, fc, pc = N.recv(sc, trc)
+            if kc == "OACK":
+                sc.sendto(N.enc_ack(0), pc)
+                kc, fc, _ = N.recv(sc, trc)       # DATA 1
+                sd.sendto(N.enc_req(N.RRQ, "mtB.bin", options=[("timeout", 30)]), srv.addr)
+                try:
+                    _, pd = sd.recvfrom(2048)
+                    sd.sendto(N.enc_error(0, b"never mind"), pd[:2])
+                except OSError:
+                    pass
+                # one more exchange, so that the worker's next wait begins after D's request; then C withholds its ACK
+                sc.sendto(N.enc_ack(1), pc)
+                kc, fc, _ = N.recv(sc, trc)       # DATA 2
+                t1 = time.time()
+                kc2, fc2, _ = N.recv(sc, trc)     # the retransmission of DATA 2
+                dt = time.time() - t1
+                sc.sendto(N.enc_error(0, b"done"), pc)
+                late.append(None if (kc2 != "DATA" or fc2["blk"] != 2) else round(dt, 2))
+            sc.close()
+            sd.close()
+            if late and late[-1] is not None and late[-1] <= 3.0:
+                break
+        out["retransmission_after_s"] = late
+        if len(late) == 3 and all(x is None or x > 3.0 for x in late):
+            v.violation("C12/mixed-timeouts/retransmission-delayed", f"{cfg}: a download that negotiated timeout 1 s got its retransmission after {late} s (3 of 3 attempts) while another endpoint negotiated timeout 30 s",
+                        {"engine": "net", "config": cfg, "scenario": "timeout 1 next to timeout 30", "measured": late})
+        # A: download, timeout 10; U: upload, timeout 10
+        sa, su = N._sock(fam, timeout=4.0), N._sock(fam, timeout=4.0)
+        tra, tru = N.Transfer(), N.Transfer()
+        sa.sendto(N.enc_req(N.RRQ, "mtA.bin", options=[("timeout", 10)]), srv.addr)
+        k, f, pa = N.recv(sa, tra)
+        su.sendto(N.enc_req(N.WRQ, "mtU.bin", options=[("timeout", 10)]), srv.addr)
+        k2, f2, pu = N.recv(su, tru)
+        if k != "OACK" or k2 != "OACK":
+            out["note"] = f"mixed timeouts: first replies {k} / {k2}"
+            return
+        sa.sendto(N.enc_ack(0), pa)
+        k, f, _ = N.recv(sa, tra)                 # DATA 1
+        su.sendto(N.enc_data(1, up_content[:512]), pu)
+        k2, f2, _ = N.recv(su, tru)               # ACK 1
+        # neighbours: B negotiates timeout 1 and completes
+        trb = N.download(srv.addr, "mtB.bin", [("timeout", 1)], family=fam)
+        # one more exchange each, so that the workers' next wait begins after B's request
+        sa.sendto(N.enc_ack(1), pa)
+        data = bytearray(f["data"]) if k == "DATA" else bytearray()
+        k, f, _ = N.recv(sa, tra)                 # DATA 2
+        if k == "DATA" and f["blk"] == 2:
+            data += f["data"]
+        su.sendto(N.enc_data(2, up_content[512:1024]), pu)
+        k2, f2, _ = N.recv(su, tru)               # ACK 2
+        t0 = time.time()
+        # A and U resume 7.5 s after B's request
+        time.sleep(max(0.0, 7.5 - (time.time() - t0)))
+        sa.sendto(N.enc_ack(2), pa)
+        ok_a = False
+        for _ in range(8):
+            k, f, _ = N.recv(sa, tra)
+            if k != "DATA":
+                break
+            if f["blk"] == len(data) // 512 + 1:
+                data += f["data"]
+            sa.sendto(N.enc_ack(f["blk"]), pa)
+            if len(f["data"]) < 512:
+                ok_a = bytes(data) == a_content
+                break
+        if not ok_a:
+            v.violation("C12/mixed-timeouts/download-killed", f"{cfg}: a download that negotiated timeout 10 s and paused 7.5 s was not completed after another endpoint negotiated timeout 1 s (last reply {k} {str(f)[:80]})",
+                        {"engine": "net", "config": cfg, "scenario": "timeout 10 next to timeout 1", "last_reply": str((k, f))[:200]})
+        ok_u = False
+        blk = 3
+        while True:
+            su.sendto(N.enc_data(blk, up_content[(blk - 1) * 512:blk * 512]), pu)
+            k2, f2, _ = N.recv(su, tru)
+            if k2 != "ACK" or f2["blk"] != blk:
+                break
+            if len(up_content[(blk - 1) * 512:blk * 512]) < 512:
+                time.sleep(0.05)
+                try:
+                    ok_u = open(os.path.join(sb["rcv"], "mtU.bin"), "rb").read() == up_content
+                except OSError:
+                    ok_u = False
+                break
+            blk += 1
+        if not ok_u:
+            v.violation("C12/mixed-timeouts/upload-killed", f"{cfg}: an upload that negotiated timeout 10 s and paused 7.5 s was not completed after another endpoint negotiated timeout 1 s (last reply {k2} {str(f2)[:80]})",
+                        {"engine": "net", "config": cfg, "scenario": "timeout 10 next to timeout 1", "last_reply": str((k2, f2))[:200]})
+        out["paused_transfers_completed"] = int(ok_a) + int(ok_u)
+        out["neighbour_completed"] = trb.completed
+        sa.close()
+        su.close()
+    except Exception as e:   # harness trouble is not a verdict
+        out["note"] = f"mixed timeouts: {type(e).__name__}: {e}"
+
+
 def run(tier):
     v = C.Verdict("C12", tier, "exploration")
     thorough = tier == "thorough"
@@ -250,6 +361,12 @@ def run(tier):
             continue
         with srv_cm as srv:
             tagn = 0
+            mt_out = {}
+            # on a server of its own (every other request would touch whatever state the listener shares between transfers)
+            mt_sb = ctx.sandbox("c12mt")
+            mt_srv = N.Server(tftpd, mt_sb["srv"], single=single, ip=ip, logdir=mt_sb["logs"]).start()
+            mt_thread = threading.Thread(target=mixed_timeouts, args=(v, mt_srv, mt_sb, cfg, mt_out))
+            mt_thread.start()
             # exhaustive interleavings, K = 2 (and 3 in thorough)
             plans = [(("down", "down"), 3), (("down", "up"), 3), (("up", "up"), 3),
                      # mixed negotiated block sizes: the listener's shared state must not depend on the most recent request
@@ -314,6 +431,14 @@ def run(tier):
                 schedules.add((cfg, roles, tuple(order)))
                 if len(samples) < 3:
                     samples.append({"config": cfg, "roles": roles, "blocks_each": nblocks, "datagram_order": order[:40], "intruders": {str(k): val for k, val in plan.items()}, "intruder_results": res})
+            mt_thread.join()
+            mt_srv.stop()
+            evaluations += 1
+            if "note" in mt_out:
+                v.note_inconclusive(f"{cfg}: {mt_out['note']}")
+            else:
+                classes[f"mixed-timeouts:{cfg}"] = mt_out
+                schedules.add((cfg, "mixed-timeouts"))
             # stale endpoint: a source whose transfer has ended sends a non-request packet
             evaluations += 1
             s = N._sock(srv.family, timeout=3.0)
